@@ -311,8 +311,49 @@ class Outcome:
 
 
 def mk_ite(test: Term, a: Term, b: Term) -> Term:
-    """a conditional whose branches agree is that value"""
-    return a if a == b else Ite(test, a, b)
+    """a conditional whose branches agree is that value; a conditional between truth constants is a connective"""
+    if a == b:
+        return a
+    ta = a.value if isinstance(a, Const) and isinstance(a.value, bool) else None
+    tb = b.value if isinstance(b, Const) and isinstance(b.value, bool) else None
+    if ta is True and tb is False:
+        return test
+    if ta is False and tb is True:
+        return Op('not', (test,))
+    if ta is True:
+        return Op('or', (test, b))
+    if ta is False:
+        return Op('and', (Op('not', (test,)), b))
+    if tb is True:
+        return Op('or', (Op('not', (test,)), a))
+    if tb is False:
+        return Op('and', (test, a))
+    return Ite(test, a, b)
+
+
+def eval_bool(t: Term, known: Dict[Term, bool]) -> Optional[bool]:
+    """truth value of t given the truth of some tests (None: not determined)"""
+    if t in known:
+        return known[t]
+    if isinstance(t, Const) and isinstance(t.value, bool):
+        return t.value
+    if isinstance(t, Op) and t.op == 'not' and len(t.args) == 1:
+        v = eval_bool(t.args[0], known)
+        return None if v is None else not v
+    if isinstance(t, Op) and t.op in ('and', 'or'):
+        vs = [eval_bool(a, known) for a in t.args]
+        if t.op == 'and':
+            if any(v is False for v in vs):
+                return False
+            return True if all(v is True for v in vs) else None
+        if any(v is True for v in vs):
+            return True
+        return False if all(v is False for v in vs) else None
+    if isinstance(t, Ite):
+        c = eval_bool(t.test, known)
+        if c is not None:
+            return eval_bool(t.a if c else t.b, known)
+    return None
 
 
 TRUE = Const(True)
@@ -411,8 +452,12 @@ def expand_ites(t: Term, limit: int = 64) -> List[Tuple[Tuple[Guard, ...], Term]
     for choice in _it.product((True, False), repeat=len(tests)):
         m = dict(zip(tests, choice))
 
+        used: List[Term] = []
+
         def pick(u: Term) -> Term:
             if isinstance(u, Ite):
+                if u.test not in used:
+                    used.append(u.test)
                 return pick(u.a if m[u.test] else u.b)
             if isinstance(u, New):
                 return New(u.cls, tuple((k, pick(v)) for k, v in u.fields))
@@ -426,8 +471,8 @@ def expand_ites(t: Term, limit: int = 64) -> List[Tuple[Tuple[Guard, ...], Term]
                 return Op(u.op, tuple(pick(a) for a in u.args))
             return u
         leaf = pick(t)
-        gs = tuple((tt, m[tt]) for tt in tests if any(y is tt or y == tt for y in [tt]))
-        # keep only the tests that actually guard the chosen leaf
+        # only the tests that were consulted on the way to this leaf guard it
+        gs = tuple((tt, m[tt]) for tt in tests if tt in used)
         out.append((gs, leaf))
     uniq = []
     for g, l in out:
@@ -449,6 +494,9 @@ def expand_outcomes(outs: List['Outcome'], limit: int = 64) -> List['Outcome']:
             known = {t: pol for t, pol in norm_guards(o.guards)}
             if any(known.get(t, pol) != pol for t, pol in norm_guards(gs)):
                 continue
+            chosen = {t: pol for t, pol in norm_guards(gs)}
+            if any(eval_bool(t, chosen) not in (None, pol) for t, pol in norm_guards(o.guards)):
+                continue   # the path's own guards rule this choice out
             exc = next((x for x in walk(leaf) if isinstance(x, Raises)), None)
             if exc is not None:
                 # the chosen alternative raises while the value is being computed (a failed table lookup, ...)
@@ -860,6 +908,9 @@ class Evaluator:
         if isinstance(s, ast.Return):
             v = self.expr(s.value, st, mod, fi, depth) if s.value is not None else NONE
             for g, leaf in alternatives(v):
+                chosen = {t: pol for t, pol in norm_guards(g)}
+                if chosen and any(eval_bool(t, chosen) not in (None, pol) for t, pol in norm_guards(st.guards)):
+                    continue   # this alternative of the value contradicts the guards of the path
                 if isinstance(leaf, Raises):
                     outs.append(Outcome('raise', leaf.exc, st.guards + g, st.effects, st.asserts, s.lineno, dict(st.env), st.trace))
                 else:
@@ -1382,6 +1433,9 @@ class Evaluator:
         return Template(tuple(merged))
 
     def compare(self, op: str, a: Term, b: Term) -> Term:
+        if isinstance(a, Ite) and isinstance(b, (Const, EnumMember)) and op in ('is', 'is not', '==', '!='):
+            return mk_ite(a.test, self.compare(op, a.a, b), self.compare(op, a.b, b))
+
         def atom(t):
             return isinstance(t, (Const, EnumMember, ClassRef))
         if atom(a) and atom(b):
